@@ -124,6 +124,14 @@ Definition kind_arch (k : cc_kind) : arch :=
 Definition cc_init (a : arch) (plat ccid : Z) : option callconv :=
   match classify a plat ccid with Some k => Some (cc_of_kind k) | None => None end.
 
+(* BaseCompiler::add_func_node: a target that guarantees a greater stack alignment than the convention overrides the natural
+   stack alignment (Environment::stack_alignment(): 16 on 64-bit targets and on 32-bit Linux/BSD/Apple, 4 on 32-bit Windows) *)
+Definition env_stack_alignment (a : arch) (plat : Z) : Z :=
+  match a with X86 => if plat =? 1 then 4 else 16 | _ => 16 end.
+Definition cc_with_natural (cc : callconv) (n : Z) : callconv :=
+  if cc_natural cc <? n then mkcc n (cc_redzone cc) (cc_spillzone cc) (cc_callee_pops cc) (cc_preserved cc) (cc_srsize cc) (cc_sralign cc) else cc.
+Definition compiler_cc (a : arch) (plat : Z) (cc : callconv) : callconv := cc_with_natural cc (env_stack_alignment a plat).
+
 (* FuncFrame::init: min dynamic alignment *)
 Definition min_dynamic_alignment (natural : Z) : Z :=
   let m := Z.max natural 16 in if m =? natural then 2 * m else m.
@@ -146,7 +154,8 @@ Record frame_in := mkfi {
   fi_local_align : Z;          (* 0 = never set *)
   fi_call_size : Z;
   fi_call_align : Z;
-  fi_sa_reg : Z                (* 255 = not set *)
+  fi_sa_reg : Z;               (* 255 = not set *)
+  fi_sa_fix : bool             (* tree variant: fixes/C07-a64-sa-register.patch applied (probed by the check, see design/C07.md) *)
 }.
 
 Record frame_out := mkfo {
@@ -233,7 +242,7 @@ Definition finalize (f : frame_in) : frame_out :=
   let v := if has_link_reg a then fin else fin + rs in
   mkfo avsr has_da (fin_sa f) sal (fin_dirty f) (callee_cleanup f) pp ex local_off extra_off da_off pp_off adj fin
        (if has_da then -1 else v)
-       (if has_fp then ras + rs else ras + pp).
+       (if has_fp && negb (fi_sa_fix f && has_link_reg a) then ras + rs else ras + pp).
 
 Definition saved_regs (f : frame_in) (o : frame_out) (g : Z) : Z :=
   Z.land (qget (fo_dirty o) g) (qget (cc_preserved (fi_cc f)) g).
@@ -370,12 +379,19 @@ Definition a64_adjust (sub : bool) (adj : Z) : list instr * bool :=
   else if adj <=? 16777215 then ([(mn, [sp; sp; OImm (adj mod 4096)]); (mn, [sp; sp; OImm (adj - adj mod 4096)])], true)
   else ([], false).
 
+(* fixed tree only: `mov saReg, sp` for an SA register that is neither sp nor the FP the prolog has just set up *)
+Definition a64_sa_init (f : frame_in) (o : frame_out) : list instr :=
+  let sa := fo_sa_reg o in
+  if fi_sa_fix f && negb (sa =? id_bad) && negb (sa =? 31) && negb (fi_has_fp f && (sa =? 29))
+  then [(Mmov, [a64_reg 0 sa; a64_reg 0 31])] else [].
+
 Definition a64_prolog (f : frame_in) (o : frame_out) : list instr * bool :=
   let total := a64_total f o in
   let (adj, ok) := a64_adjust true (fo_stack_adj o) in
   ((if fi_ibp f then [(Mbti, [OImm 3])] else []) ++
    a64_group_stores f 0 total (a64_gp_pairs f o) ++
    a64_group_stores f 1 total (a64_vec_pairs f o) ++
+   a64_sa_init f o ++
    adj, ok).
 
 Definition a64_epilog (f : frame_in) (o : frame_out) : list instr * bool :=
